@@ -540,7 +540,7 @@ template <class G> int runOne(const std::string &prop, Family fam, bool directed
         else if (variant == "n3d4") { cfg.startSizes = {2, 3}; cfg.maxN = 3; cfg.maxDepth = 4; cfg.completeKey = false; }
         else { fprintf(stderr, "unknown variant %s\n", variant.c_str()); return 2; }
         cfg.kinds = {ADD, REMOVE, REMOVE_LOOPS, REMOVE_VERTEX, CLEAR, RESIZE};
-        if (fam != WEIGHTED) cfg.kinds.insert(ADD_DEFAULT);
+        if (fam != WEIGHTED && !(fam == PLAIN && labelled && variant != "n2")) cfg.kinds.insert(ADD_DEFAULT); // fast key: default label kept out of 3-vertex labelled searches
         if (labelled) cfg.kinds.insert(SET_VALUE);
         if (fam == PLAIN) { cfg.addValues = labelled ? std::vector<long>{1, 2} : std::vector<long>{0}; cfg.setValues = cfg.addValues; }
         else if (fam == MULTI) { cfg.addValues = {1, 2}; cfg.setValues = {0, 2}; cfg.maxValue = 2; }
